@@ -36,9 +36,9 @@ func VerifTLRun(a *Agent, fn func()) error {
 // VerifTLState is a comparable digest of the loop-owned agent state.
 type VerifTLState struct {
 	Checklist, PairsByID, Pending, Locals, Remotes int
-	NextPairID                                      uint64
-	LocalUfrag, LocalPwd, RemoteUfrag, RemotePwd    string
-	ConnectionState, GatheringState                 int
+	NextPairID                                     uint64
+	LocalUfrag, LocalPwd, RemoteUfrag, RemotePwd   string
+	ConnectionState, GatheringState                int
 }
 
 // VerifTLSnapshot reads the loop-owned state. It must be called from a task running on the loop.
